@@ -447,6 +447,20 @@ func (d amfDec) decLine(bs []byte) string {
 	return fmt.Sprintf("ok %d %d %s %s", d.consumed, d.val.Size(), amfStr(d.val), h.Hex(bs[d.consumed:]))
 }
 
+// Every marshalled slice is RETAINED (with a snapshot of its content at the time it was returned) and re-checked
+// later by amfCheckRetained: bytes handed to the caller must not change when other values are marshalled afterwards
+// (an application queues several encoded values before writing them).
+type amfKept struct {
+	b    []byte
+	snap string
+	desc string
+}
+
+var (
+	amfRing      []amfKept
+	amfRingBytes int
+)
+
 func libMarshal(a amf0.Amf0) (out []byte, class string) {
 	class = h.Safe(func() string {
 		b, err := a.MarshalBinary()
@@ -456,7 +470,25 @@ func libMarshal(a amf0.Amf0) (out []byte, class string) {
 		out = b
 		return "ok"
 	})
+	if class == "ok" && len(out) > 0 && len(amfRing) < 3000 && amfRingBytes < 4<<20 {
+		amfRing = append(amfRing, amfKept{out, string(out), h.Trunc(amfStr(a), 200)})
+		amfRingBytes += len(out)
+	}
 	return
+}
+
+// amfCheckRetained verifies that every slice handed out by MarshalBinary so far still holds what it held then.
+func amfCheckRetained(c *h.Ctx) {
+	bad := 0
+	for i, k := range amfRing {
+		if string(k.b) != k.snap && bad < 3 {
+			bad++
+			c.Hold(false, "marshal.bytes_not_aliased", fmt.Sprintf("marshal #%d of %d retained values: %s", i, len(amfRing), k.desc),
+				h.Trunc(h.Hex(k.b), 120), h.Trunc(h.Hex([]byte(k.snap)), 120))
+		}
+	}
+	c.Note(fmt.Sprintf("retained marshalled slices re-checked: %d", len(amfRing)))
+	amfRing, amfRingBytes = nil, 0
 }
 
 func amfBucketSize(n int) string {
